@@ -21,6 +21,18 @@ CLAIMS = {
              "offsets) and all field values; every obligation is discharged on every run. The sterile-copy "
              "clause is decided under C21.",
         note=PYVC_TRUST + "; type invariant of datagram fields (wire ranges) is a precondition of assemble"),
+    "C26": dict(
+        engine="bpfvc", category="proof", design_ref="DESIGN.md section 4 C26",
+        technique="contract-based deductive verification of the generated program: postcondition from the "
+                  "property text on the bytes of FastSyncGroup(Motor, EL7041).assemble(), all paths, "
+                  "bit-vector inputs fully symbolic, z3",
+        text="The assembled bytes of the real Motor program are executed symbolically on every path; for all "
+             "values of all inputs (bit-vectors) satisfying the property's preconditions the 16-bit velocity "
+             "field equals the limited control law, the enable bit follows set_enable, nothing else in the "
+             "terminal's output region changes, and every memory access is in bounds. The program is loop free, "
+             "so this is complete, not bounded. The three 'consequently' clauses are lemmas over the spec.",
+        note=BPFVC_TRUST + "; the EL7041 PDO layout is fixed as in contracts/c26_motor.py; 64-bit products of "
+             "non-constants are uninterpreted in the proof (lemma L-MUL ties them to the mathematical product)"),
 }
 
 NA = {
